@@ -626,3 +626,21 @@ Proof.
   intros Hok Hin Hf Hc Ht. rewrite (sniff_force_configured T configured l Hok Hin) in Hf. injection Hf as Hf.
   apply rejected_no_session, forced_plain_client_rejected; [congruence|assumption].
 Qed.
+
+Lemma facts_tlscfg T : facts_ok T = true -> tlscfg_ok T = true.
+Proof. unfold facts_ok. rewrite !andb_true_iff. tauto. Qed.
+
+(* on every listener frps opens on the network the TLS policy in force is the configured one *)
+Lemma listener_policy_configured T p l :
+  tlscfg_ok T = true -> In l network_kinds -> listener_policy T p l = Some p.
+Proof.
+  unfold tlscfg_ok. rewrite !andb_true_iff. intros [[[[Hall Hone] Hcalls] _] _] Hin.
+  rewrite forallb_forall in Hone. specialize (Hone l Hin).
+  unfold listener_policy. destruct (tls_consumer l) as [cns|]; [|discriminate].
+  destruct (filter _ (tb_tls_uses T)) as [|u [|]] eqn:F; try discriminate.
+  assert (Hu : In u (tb_tls_uses T)).
+  { assert (In u (filter (fun u0 => String.eqb (tu_consumer u0) cns) (tb_tls_uses T))) by (rewrite F; now left).
+    now apply filter_In in H. }
+  rewrite forallb_forall in Hall. specialize (Hall u Hu). apply andb_true_iff in Hall. destruct Hall as [_ Hp].
+  rewrite Hp, Hcalls. destruct l; reflexivity.
+Qed.
